@@ -57,7 +57,8 @@ def main():
         for s in sorted(os.listdir(sd)):
             meta = json.load(open(os.path.join(sd, s, "meta.json")))
             if a.prop in (None, meta["property"]):
-                cases.append(dict(id="seed-" + s, kind="mutant", prop=meta["caught_by"][0] if meta.get("caught_by") else meta["property"],
+                cb = meta.get("caught_by") or []
+                cases.append(dict(id="seed-" + s, kind="mutant", prop=meta["property"] if (meta["property"] in cb or not cb) else cb[0],
                                   patch=os.path.join(sd, s, "patch.diff")))
     base = tempfile.mkdtemp(prefix="verif-selftest-")
     t0 = time.time()
